@@ -62,18 +62,29 @@ class GBSys:
         items = [(EqItem if keyfl == "alleq" else Item)(1, p + 1, k) for p, k in enumerate(data)]
         if keyfl == "alleq":
             keyfl = "def"
+        # with a key function the second item is the object None (its key is what the data says): an item like any other
+        self.none_key = None
+        if keyfl in ("def", "asyncdef", "aw") and len(items) >= 2:
+            self.none_key = data[1]
+            items[1] = None
         if sync:
             self.src = SyncIterSource(self.rec, 1, items)
-            key = None if keyfl == "none" else make_callable("def", self.rec, "key", sem=_nonekey if keyfl == "nonekey" else None)
+            key = None if keyfl == "none" else make_callable("def", self.rec, "key", sem=_nonekey if keyfl == "nonekey" else self._sem())
             self.gb = itertools.groupby(self.src, key)
         else:
             L = tm.load_lib()
             self.src = (ClsSourceNoClose if noclose else ClsSource)(self.rec, 1, items)
             key = None if keyfl == "none" else make_callable("asyncdef" if keyfl == "nonekey" else keyfl, self.rec, "key",
-                                                             sem=_nonekey if keyfl == "nonekey" else None)
+                                                             sem=_nonekey if keyfl == "nonekey" else self._sem())
             self.gb = L.groupby(self.src, key)
         self.groups = []
         self.dead = False
+
+    def _sem(self):
+        nk = self.none_key
+        if nk is None:
+            return None
+        return lambda x: nk if x is None else x.k
 
     def _run(self, aw_or_fn):
         if self.sync:
@@ -111,6 +122,8 @@ class GBSys:
             r = self._run((lambda: next(grp)) if self.sync else (lambda: grp.__anext__()))
             if r[0] == "done":
                 x = r[1]
+                if x is None and self.none_key is not None:
+                    return ("item", self.none_key, 2)
                 return ("item", x.k, x.p) if isinstance(x, Item) else ("item", -1, -1)
         exc = r[1]
         if isinstance(exc, (StopIteration, StopAsyncIteration)):
